@@ -22,8 +22,22 @@ double strtod (const char *nptr, char **endptr)
   if (!may) { if (endptr) *endptr = (char *) nptr; return 0.0; }
   size_t l = v_strlen (nptr); size_t k = nondet_size_t (); V_ASSUME (k <= l); if (endptr) *endptr = (char *) nptr + k; return 0.0;
 }
+#ifdef STRTOL_FUNCTIONAL
+/* arbitrary but functional: the same token always converts to the same value (the harness reads it back with tokval) */
+static const char *st_seen[6]; static long st_val[6]; static int st_n;
+static long tokval (const char *t)
+{
+  for (int i = 0; i < 6; i++) { if (i >= st_n) break; if (st_seen[i] == t) return st_val[i]; }
+  long v = nondet_long (); V_ASSUME (v >= 1 && v <= 100000);
+  if (st_n < 6) { st_seen[st_n] = t; st_val[st_n] = v; st_n++; }
+  return v;
+}
+long strtol (const char *nptr, char **endptr, int base)
+{ if (endptr) *endptr = (char *) nptr + v_strlen (nptr); return tokval (nptr); }
+#else
 long strtol (const char *nptr, char **endptr, int base)
 { size_t l = v_strlen (nptr); size_t k = nondet_size_t (); V_ASSUME (k <= l); if (endptr) *endptr = (char *) nptr + k; return nondet_long (); }
+#endif
 void orc_init (void) { }
 int isspace (int c) { return c == ' ' || (c >= 9 && c <= 13); }
 static void emu (OrcOpcodeExecutor *ex, int o, int n) { }
@@ -353,6 +367,46 @@ void h_dir_equiv (void)
   V_WITNESS ();
 }
 
+/* program-level directives: .n in every keyword arrangement, .m, .flags 2d == the API calls, and nothing else changes */
+#ifndef NKIND
+#define NKIND 0
+#endif
+#ifdef STRTOL_FUNCTIONAL
+void h_dotn (void)
+{
+  OrcParser parser; memset (&parser, 0, sizeof parser);
+  parser.code = ""; parser.opcode_set = &the_set; parser.enable_errors = 1; parser.line_number = 1;
+  parser.program = mk_program ();
+  OrcProgram *p = parser.program;
+  OrcProgram *q = mk_program ();
+  static const char *A = "7", *B = "8", *C = "9";      /* distinct token objects; their values are arbitrary (tokval) */
+  OrcLine line; memset (&line, 0, sizeof line);
+  const char *t[8]; int n = 0;
+  t[n++] = (NKIND == 8) ? ".m" : (NKIND == 9) ? ".flags" : ".n";
+  switch (NKIND) {
+    case 0: t[n++] = A; orc_program_set_constant_n (q, tokval (A)); break;
+    case 1: t[n++] = "mult"; t[n++] = A; orc_program_set_n_multiple (q, tokval (A)); break;
+    case 2: t[n++] = "min"; t[n++] = A; orc_program_set_n_minimum (q, tokval (A)); break;
+    case 3: t[n++] = "max"; t[n++] = A; orc_program_set_n_maximum (q, tokval (A)); break;
+    case 4: t[n++] = "mult"; t[n++] = A; t[n++] = "min"; t[n++] = B; orc_program_set_n_multiple (q, tokval (A)); orc_program_set_n_minimum (q, tokval (B)); break;
+    case 5: t[n++] = "max"; t[n++] = A; t[n++] = "mult"; t[n++] = B; orc_program_set_n_maximum (q, tokval (A)); orc_program_set_n_multiple (q, tokval (B)); break;
+    case 6: t[n++] = "mult"; t[n++] = A; t[n++] = "min"; t[n++] = B; t[n++] = "max"; t[n++] = C;
+            orc_program_set_n_multiple (q, tokval (A)); orc_program_set_n_minimum (q, tokval (B)); orc_program_set_n_maximum (q, tokval (C)); break;
+    case 7: t[n++] = "min"; t[n++] = A; t[n++] = "max"; t[n++] = B; orc_program_set_n_minimum (q, tokval (A)); orc_program_set_n_maximum (q, tokval (B)); break;
+    case 8: t[n++] = A; orc_program_set_constant_m (q, tokval (A)); break;
+    case 9: t[n++] = "2d"; orc_program_set_2d (q); break;
+  }
+  for (int i = 0; i < n; i++) line.tokens[i] = t[i];
+  line.n_tokens = n;
+  orc_parse_handle_directive (&parser, &line);
+  V_ASSERT (parser.errors.n_items == 0, "a well-formed directive reports no error");
+  V_ASSERT (p->constant_n == q->constant_n && p->n_multiple == q->n_multiple && p->n_minimum == q->n_minimum && p->n_maximum == q->n_maximum
+            && p->constant_m == q->constant_m && p->is_2d == q->is_2d, "the directive sets exactly what the API calls set (constant n/m, multiple, minimum, maximum, 2d)");
+  V_ASSERT (p->n_insns == q->n_insns && p->n_src_vars == q->n_src_vars && p->n_dest_vars == q->n_dest_vars && p->n_const_vars == q->n_const_vars, "and declares nothing");
+  V_WITNESS ();
+}
+#endif
+
 /* numeric literals: decimal / negative / hex / octal with symbolic digits == the value the literal denotes */
 #ifndef LKIND
 #define LKIND 0
@@ -375,6 +429,29 @@ void h_literal (void)
 #elif LKIND == 3          /* 64-bit suffix: abL */
   V_ASSUME (a >= 1 && a <= 9 && b <= 9);
   s[0] = '0' + a; s[1] = '0' + b; s[2] = nondet_bool () ? 'L' : 'l'; s[3] = 0; want = 10 * a + b; want_size = 8;
+#elif LKIND == 5          /* full-width 64-bit hex: 0x a fff fff fff fff f b c L  (top of the unsigned range included) */
+  V_ASSUME (a <= 15 && b <= 15 && c <= 15);
+  char big[24]; int k = 0;
+  big[k++] = '0'; big[k++] = 'x';
+  big[k++] = a < 10 ? '0' + a : 'a' + (a - 10);
+  for (int i = 0; i < 13; i++) big[k++] = 'f';
+  big[k++] = b < 10 ? '0' + b : 'A' + (b - 10); big[k++] = c < 10 ? '0' + c : 'a' + (c - 10);
+  big[k++] = 'L'; big[k] = 0;
+  want = (long long) (((unsigned long long) a << 60) | 0x0fffffffffffff00ULL | (b << 4) | c); want_size = 8;
+  int id5 = orc_program_add_constant_str (p, 0, big, "k");
+  V_ASSERT (id5 == ORC_VAR_C1 && p->vars[id5].vartype == ORC_VAR_TYPE_CONST && p->vars[id5].value.i == want && p->vars[id5].size == 8, "a 16-digit hex literal with L suffix has the 64-bit value it denotes");
+  V_WITNESS ();
+  return;
+#elif LKIND == 6          /* full-width decimal 184467440737095516ab L, up to 2^64-1 */
+  V_ASSUME (a <= 1 && b <= 9 && (a == 0 || b <= 5));
+  char big[24]; const char *pre = "184467440737095516"; int k = 0;
+  for (; pre[k]; k++) big[k] = pre[k];
+  big[k++] = '0' + a; big[k++] = '0' + b; big[k++] = 'l'; big[k] = 0;
+  want = (long long) (18446744073709551600ULL + 10 * a + b); want_size = 8;
+  int id6 = orc_program_add_constant_str (p, 0, big, "k");
+  V_ASSERT (id6 == ORC_VAR_C1 && p->vars[id6].vartype == ORC_VAR_TYPE_CONST && p->vars[id6].value.i == want && p->vars[id6].size == 8, "a 20-digit decimal literal with L suffix has the 64-bit value it denotes");
+  V_WITNESS ();
+  return;
 #else                      /* octal 0ab */
   V_ASSUME (a <= 7 && b <= 7);
   s[0] = '0'; s[1] = '0' + a; s[2] = '0' + b; s[3] = 0; want = 8 * a + b;
